@@ -20,6 +20,10 @@ JOB = {'dur': [0, 2, 3, 'never'], 'cdelay': [1], 'sd': [1, 3],
 def items(tier, seed):
     th = tier == 'thorough'
     fv = {'mods': [('forever', True)], 'pairs': True}
+    yield from spaces.mk(['flat23'], force='each_job',
+                         fargs={'mods': [('forever', True)]}, pre=True,
+                         job_open={'dur': [0, 2]}, top_open={'window': [1]},
+                         nest_open={}, k=1, bound=2)
     yield from spaces.mk(['flat23'], force='each_job', fargs=fv,
                          job_open=JOB,
                          top_open={'window': [1, 2], 'sdt': [0, 2, None],
